@@ -80,6 +80,7 @@ var fragments = []string{
 	"-٣", "+३", "１", "٣", "-１", " -٣ ", "x٣", "Ω", "ß", "_Ω", "-Ω", "+é", ".٣", "٣.٣", "1٣", "'٣'",
 	// character and string constants: empty, plain, too long, escapes (complete and cut short), unterminated
 	"''", "'a'", "'ab'", `'\n'`, `'\''`, `'\`, "'''", "'é'", "'\xff'", "' '", `'\x4'`, `'\u12'`, `'\777'`, `"\x"`, `"\u12"`, "``", "`\n`", `'\x41'`, `'"'`,
+	"\n-}}", "\t-}}", "\r\n-}}", " \n-}}", "\n -}}", "{{-\n", "{{-\t", "1\n-}}", ".\t-}}",
 	"catch |", "catch 1", "catch (", "yield (", "block (", "block b(", "yield b(,)", "range ,", "if ;", ":= ", "x := ", "a, b := ", "a[", "a[:", "a[1:", "f(_", "f(_,_)", "| _", "include", "return",
 }
 
